@@ -25,6 +25,40 @@ func init() {
 	externals["(*sync.Mutex).Unlock"] = func(fr *frame, args []value) value { return nil }
 	externals["(*sync.RWMutex).RLock"] = func(fr *frame, args []value) value { return nil }
 	externals["(*sync.RWMutex).RUnlock"] = func(fr *frame, args []value) value { return nil }
+	// sync.Pool: Get returns the most recently Put object of this path (LIFO, the behaviour of a
+	// single P), else New(). An object handed to Put becomes package-level state: it is reported
+	// through the global write barrier and every later write to it is reported as well.
+	externals["(*sync.Pool).Get"] = func(fr *frame, args []value) value {
+		p := args[0].(*value)
+		if l := poolItems[p]; len(l) > 0 {
+			x := l[len(l)-1]
+			poolItems[p] = l[:len(l)-1]
+			return x
+		}
+		st := (*p).(structure)
+		switch nf := st[len(st)-1].(type) {
+		case *ssa.Function:
+			if nf != nil {
+				return call(fr.i, fr, token.NoPos, nf, nil)
+			}
+		case *closure:
+			if nf != nil {
+				return call(fr.i, fr, token.NoPos, nf, nil)
+			}
+		}
+		return iface{}
+	}
+	externals["(*sync.Pool).Put"] = func(fr *frame, args []value) value {
+		p := args[0].(*value)
+		poolItems[p] = append(poolItems[p], args[1])
+		if name, ok := frozenCells[p]; ok && barrierOn {
+			if X != nil && !inHarness() {
+				X.GlobalWrites = append(X.GlobalWrites, name+" (sync.Pool) retains an object put in "+curInstr.Parent().String())
+			}
+			freezeMore(args[1], name+" (pooled object)")
+		}
+		return nil
+	}
 	posName := "github.com/tdewolff/parse/v2.Position"
 	externals[posName] = nil // resolved lazily in callSSA via stubOverride
 	delete(externals, posName)
